@@ -75,6 +75,7 @@ fn worker(args: &[String]) -> i32 {
     let mut samples: Vec<Value> = vec![];
     let mut discarded: BTreeMap<String, u64> = BTreeMap::new();
     let mut nondet: Vec<Value> = vec![];
+    let mut panics: Vec<Value> = vec![];
     let mut det_checked = 0u64;
     let mut k = 0u64;
     while k < count {
@@ -96,6 +97,11 @@ fn worker(args: &[String]) -> i32 {
                 *e = (*e).max(*v);
             } else {
                 *counters.entry(k.clone()).or_default() += v;
+            }
+        }
+        for p in &ctx.panics {
+            if panics.len() < 5 {
+                panics.push(json!({"case_index": index, "panic": p}));
             }
         }
         if let Some(d) = &out.discarded {
@@ -144,7 +150,7 @@ fn worker(args: &[String]) -> i32 {
         "wall_s": t0.elapsed().as_secs_f64(),
         "violations": vio, "violation_classes": classes,
         "samples": samples, "discarded": discarded,
-        "nondeterminism": nondet, "det_checked": det_checked,
+        "nondeterminism": nondet, "det_checked": det_checked, "panics": panics,
         "rule": def.rule, "level": def.level, "assumptions": def.assumptions, "probes": def.probes, "title": def.title,
     });
     std::fs::write(out_path, serde_json::to_string(&res).unwrap()).expect("write out");
@@ -175,7 +181,10 @@ fn replay(args: &[String]) -> i32 {
             return 2;
         }
     };
-    let lenient = flag(args, "--lenient");
+    // a replay file can ask for lenient replay itself (witness of a repaired defect that fails again on a
+    // changed tree: its recorded decisions belong to another tree)
+    let file_lenient = std::fs::read_to_string(path).ok().and_then(|t| serde_json::from_str::<Value>(&t).ok()).map(|v| v["replay_mode"] == "lenient").unwrap_or(false);
+    let lenient = flag(args, "--lenient") || file_lenient;
     let fresh = flag(args, "--fresh-decisions");
     let mut ctx = CaseCtx::new(def.id, &tier, cs);
     ctx.scenario_override = Some(sc);
